@@ -694,12 +694,188 @@ def r35(ctx, R):
     R.count('R3.5', 1 + n, 3)
 
 
+def r38(ctx, R):
+    """The per-combination predicates of the merge cannot be bypassed."""
+    prog = ctx.prog
+    f = prog.func(AC + ':_satisfies_same_subtree')
+    chk = AC + ':_check_same_subtree'
+    loops = [lp for lp in f.node.body if isinstance(lp, ast.For)]
+    rets_true = [r for r in own_nodes(f.node) if isinstance(r, ast.Return)
+                 and isinstance(r.value, ast.Constant)
+                 and r.value.value is True]
+    ok = len(loops) == 1 and src(loops[0].iter).endswith('.same_subtrees')
+    why = '%d top-level loops' % len(loops)
+    if ok:
+        lp = loops[0]
+        calls = [x for x in own_nodes_of(lp) if isinstance(x, ast.Call)
+                 and chk in C.call_name(ctx, f, x)]
+        ok = len(calls) == 1
+        why = '%d _check_same_subtree calls in the loop' % len(calls)
+        if ok:
+            st = C.stmt_of(calls[0])
+            sk = C.skip_conds(st, lp)
+            # a false check ends the function with False
+            falses = [r for r in own_nodes_of(lp)
+                      if isinstance(r, ast.Return) and isinstance(
+                          r.value, ast.Constant) and r.value.value is False
+                      and any(e is calls[0] and not pol for e, pol in
+                              C.conds(r, lp, implicit=True))]
+            inside_true = [r for r in rets_true
+                           if any(r is y for y in ast.walk(lp))]
+            # the False answer depends on the failed check alone (a further
+            # literal would let a failing constraint pass)
+            extra = [ast.unparse(e) for r in falses
+                     for e, pol in C.conds(r, lp, implicit=True)
+                     if e is not calls[0]]
+            ok = not sk and bool(falses) and not inside_true and bool(
+                [r for r in rets_true if r not in inside_true]) and not \
+                extra
+            sk = sk + [(ast.parse(x, mode='eval').body, True)
+                       for x in extra]
+            why = 'check skipped under %s; false->False %s; True inside ' \
+                'the loop %d' % ([ast.unparse(e) for e, _p in sk],
+                                 bool(falses), len(inside_true))
+    R.ob('R3.8', '_satisfies_same_subtree:every-constraint-checked', ok,
+         'every same_subtree set of the request is tested by '
+         '_check_same_subtree on every combination (no set is skipped), a '
+         'failing test answers False, True only after all passed', why,
+         func=f)
+    g = prog.func(AC + ':_satisfies_group_policy')
+    pol_p = g.params[1] if len(g.params) > 1 else None
+    oke = True
+    found = []
+    for r in own_nodes(g.node):
+        if not (isinstance(r, ast.Return) and isinstance(
+                r.value, ast.Constant) and r.value.value is True):
+            continue
+        ls = C.conds(r, g.node, implicit=True)
+        txt = [(ast.unparse(e), p) for e, p in ls]
+        found.append(txt)
+        not_isolate = any(("%s != 'isolate'" % pol_p, True) == t or (
+            "%s == 'isolate'" % pol_p, False) == t for t in txt)
+        counted = any(isinstance(e, ast.Compare) and isinstance(
+            e.ops[0], (ast.Eq, ast.NotEq)) and pol_p not in C.names_in(e)
+            for e, _p in ls)
+        # True either because the policy is not isolate, or through the
+        # count comparison
+        if not (not_isolate or counted):
+            oke = False
+    R.ob('R3.8', '_satisfies_group_policy:isolate-is-counted', oke and
+         bool(found),
+         'a combination passes at once only when the policy is not '
+         '"isolate"; under isolate it passes only through the comparison of '
+         'the provider count with the number of granular groups', found,
+         func=g)
+    R.count('R3.8', 2, 2)
+
+
+def r39(ctx, R):
+    """Every occurrence of a repeatable request-wide parameter contributes:
+    the list of same_subtree sets is one set per occurrence, none skipped
+    or merged."""
+    prog = ctx.prog
+    f = prog.func(LIB + ':RequestWideParams.from_request')
+    # the name passed as same_subtrees= to the constructor
+    var = None
+    for r in own_nodes(f.node):
+        if isinstance(r, ast.Return) and isinstance(r.value, ast.Call):
+            a = C.kwarg(r.value, 'same_subtrees')
+            if isinstance(a, ast.Name):
+                var = a.id
+    view = C.builder_view(f, var) if var else None
+    ok = False
+    why = C.view_key(view) if view else 'same_subtrees=%s is not built ' \
+        'by one accumulation' % var
+    if view is not None and len(view['gens']) == 1:
+        it = view['gens'][0][1]
+        deps = C.Deps(f)
+        from_getall = deps.reaches(it, lambda x: isinstance(x, ast.Call)
+                                   and isinstance(x.func, ast.Attribute)
+                                   and x.func.attr == 'getall' and x.args
+                                   and isinstance(x.args[0], ast.Constant)
+                                   and x.args[0].value == 'same_subtree')
+        lv = view['gens'][0][0]
+        uses_el = isinstance(lv, ast.Name) and any(
+            isinstance(x, ast.Name) and x.id == lv.id
+            for x in ast.walk(view['elem']))
+        ok = view['kind'] == 'list' and from_getall and uses_el and not \
+            view['conds']
+    R.ob('R3.9', 'from_request:same_subtree-accumulation', ok,
+         'each same_subtree occurrence of the query string becomes one set '
+         'of the list handed to the search (no occurrence is dropped, '
+         'merged or filtered)', why, func=f)
+    R.count('R3.9', 1, 1)
+
+
+def r310(ctx, R):
+    """Sets the search narrows in place belong to the group.  The
+    single-provider path aliases rg_ctx.<attr> and applies &= / -= to it;
+    that is harmless only while the attribute holds an object made for this
+    group (a call of a function that builds its result, or a literal) - not
+    one looked up in a structure other groups share."""
+    prog = ctx.prog
+    cls_d = RGSC.replace(':', '.')
+    narrowed = {}
+    for f in prog.funcs:
+        if f.module.name != RC:
+            continue
+        alias = {}
+        for n in own_nodes(f.node):
+            if isinstance(n, ast.Assign) and len(n.targets) == 1 and \
+                    isinstance(n.targets[0], ast.Name) and isinstance(
+                        n.value, ast.Attribute) and isinstance(
+                            n.value.value, ast.Name):
+                ts = ctx.cg.expr_types(f, n.value.value)
+                if cls_d in ts or (f.cls is not None and f.cls.dotted ==
+                                   cls_d and n.value.value.id ==
+                                   f.params[0]):
+                    alias.setdefault(n.targets[0].id, set()).add(
+                        n.value.attr)
+        for n in own_nodes(f.node):
+            if isinstance(n, ast.AugAssign) and isinstance(
+                    n.target, ast.Name) and n.target.id in alias:
+                for a in alias[n.target.id]:
+                    narrowed.setdefault(a, []).append((f, n))
+    init = prog.func(RGSC + '.__init__')
+    fields = _self_fields(init)
+    REVIEWED = {
+        '_sharing_providers':
+            'the set of all sharing providers is handed to every group; it '
+            'is narrowed by get_rps_with_shared_capacity, which only the '
+            'one group on the tree path (the unsuffixed one) calls',
+    }
+    n_ = 0
+    for a, sites in sorted(narrowed.items()):
+        n_ += 1
+        bad = []
+        for v in fields.get(a, []):
+            fresh = isinstance(v, (ast.Set, ast.List, ast.Dict, ast.SetComp,
+                                   ast.ListComp, ast.DictComp)) or (
+                isinstance(v, ast.Call) and isinstance(
+                    v.func, ast.Name) and (
+                        v.func.id in ('set', 'list', 'dict', 'frozenset')
+                        or v.func.id in init.module.functions))
+            if not fresh:
+                bad.append(src(v)[:60])
+        ok = not bad or a in REVIEWED
+        R.ob('R3.10', 'narrowed-in-place:%s' % a, ok,
+             'an attribute of the group\'s search context that the search '
+             'narrows in place holds an object built for this group',
+             bad and ('assigned from %s%s' % (
+                 bad, ' (reviewed: %s)' % REVIEWED[a] if a in REVIEWED
+                 else '')) or 'fresh', func=sites[0][0], node=sites[0][1])
+    R.count('R3.10', n_, 2)
+
+
 def run(ctx, R):
     r31(ctx, R)
     r32(ctx, R)
     r33(ctx, R)
     r34(ctx, R)
     r35(ctx, R)
+    r38(ctx, R)
+    r39(ctx, R)
+    r310(ctx, R)
     from psa.rules import c20
     n6 = C.reuse_obligations(ctx, R, c20.r205, 'R3.6')
     R.count('R3.6', n6, 3)
